@@ -1,1 +1,99 @@
 // harness bodies for h2 src/hpack/encoder.rs (compiled in-crate as `verif_h`, feature "verif")
+use super::*;
+use crate::hpack::decoder::verif_h::{ref_decode_int, RefInt};
+
+/// C10.int: `encode_int` output is decoded by the RFC 7541 §5.1 reference decoder
+/// to the same value, uses <= 5 octets, and keeps the caller's first-octet flag bits,
+/// for every value < 2^28 and prefix 4..=7.
+pub fn c10_int_roundtrip() {
+    let value: usize = kani::any();
+    kani::assume(value < (1 << 28));
+    let prefix: usize = kani::any();
+    kani::assume(prefix >= 4 && prefix <= 7);
+    let flags: u8 = kani::any();
+    kani::assume((flags as usize) & ((1usize << prefix) - 1) == 0);
+    let mut out = [0u8; 8];
+    let mut dst = &mut out[..];
+    encode_int(value, prefix, flags, &mut dst);
+    let written = 8 - dst.len();
+    assert!(written >= 1 && written <= 5, "encode_int: more than 5 octets for a value < 2^28");
+    assert!(out[0] & !(((1usize << prefix) - 1) as u8) == flags, "encode_int: first-octet flag bits changed");
+    match ref_decode_int(&out[..written], prefix as u8) {
+        RefInt::Val(v, k) => {
+            assert!(v as usize == value, "encode_int: reference decoder reads a different value");
+            assert!(k == written, "encode_int: trailing octets");
+        }
+        _ => panic!("encode_int: output is not a complete RFC 7541 integer"),
+    }
+    // minimal length (the RFC encoding is unique): a strict prefix is incomplete
+    if written > 1 {
+        assert!(ref_decode_int(&out[..written - 1], prefix as u8) == RefInt::NeedMore);
+    }
+    kani::cover!(written == 5, "five_octets");
+    kani::cover!(written == 1, "one_octet");
+    kani::cover!(true, "end");
+}
+
+/// C10.size: for any <= 3 consecutive `update_max_size` calls between two header
+/// blocks, the size updates emitted at the start of the next block follow RFC 7541
+/// §4.2: at most two; the last one is the final size; if the size dipped below both
+/// the size in force and the final size, the minimum is signalled first; values never
+/// exceed what the peer allowed (nor the 4096 cap); the table ends at the final size.
+pub fn c10_size_updates() {
+    let t0: usize = kani::any();
+    kani::assume(t0 <= 4096);
+    let mut enc = Encoder::new(t0, 0);
+    let k: usize = kani::any();
+    kani::assume(k >= 1 && k <= 3);
+    let v: [usize; 3] = kani::any();
+    let mut m = usize::MAX;
+    let mut fin = t0;
+    let mut i = 0;
+    while i < 3 {
+        if i < k {
+            enc.update_max_size(v[i]);
+            let c = if v[i] > 4096 { 4096 } else { v[i] };
+            if c < m { m = c; }
+            fin = c;
+        }
+        i += 1;
+    }
+    let mut dst = BytesMut::with_capacity(64);
+    enc.encode_size_updates(&mut dst);
+    // parse what was emitted with the reference integer decoder
+    let mut ups = [0u64; 3];
+    let mut n_up = 0;
+    let mut pos = 0;
+    while pos < dst.len() {
+        assert!(dst[pos] & 0xe0 == 0x20, "size update: wrong representation bits");
+        match ref_decode_int(&dst[pos..], 5) {
+            RefInt::Val(val, used) => {
+                assert!(n_up < 2, "more than two size updates");
+                ups[n_up] = val;
+                n_up += 1;
+                pos += used;
+            }
+            _ => panic!("size update: malformed integer"),
+        }
+    }
+    if n_up == 0 {
+        assert!(fin == t0, "final table size differs from the size in force but no update was emitted");
+        assert!(m >= t0, "table size dipped below the size in force but no update was emitted");
+    } else {
+        assert!(ups[n_up - 1] as usize == fin, "last size update is not the final size");
+        if m < t0 && m < fin {
+            assert!(n_up == 2 && ups[0] as usize == m, "smallest size in the interval not signalled first");
+        }
+        if n_up == 2 {
+            assert!(ups[0] <= ups[1]);
+        }
+    }
+    assert!(enc.table.max_size() == fin, "encoder table size != final size");
+    assert!(crate::hpack::table::verif_h::size(&enc.table) <= enc.table.max_size());
+    assert!(enc.size_update.is_none(), "size update still pending after it was emitted");
+    kani::cover!(n_up == 2, "two_updates");
+    kani::cover!(n_up == 0, "no_update");
+    kani::cover!(true, "end");
+    std::mem::forget(dst);
+    std::mem::forget(enc);
+}
